@@ -329,8 +329,11 @@ pub fn gen_case(rg: &mut Rg, rule: &str) -> Case {
         "half-parse_err" => {
             let a = *rg.pick(&["#[strum(parse_err_ty = MyErr)]", "#[strum(parse_err_fn = mk_err)]", "#[strum(serialize_all = \"snake_case\", parse_err_fn = mk_err)]"]);
             let (s, p) = assemble(rg, &[a.to_string()], "", &[], false);
-            source = s.replace("{\n}", "{\n    Only,\n}");
-            variation = format!("{} {}", a, p);
+            // with a catch-all variant the error type is never produced, but half a pair is rejected all the same
+            // (seeded change C20-31 looked at the pair only when there was no `default` variant)
+            let body = *rg.pick(&["    Only,\n", "    Only,\n    #[strum(default)]\n    Other(String),\n", "    #[strum(default)]\n    Other { inner: String },\n    Only,\n"]);
+            source = s.replace("{\n}", &format!("{{\n{}}}", body));
+            variation = format!("{} {} body[{}]", a, p, body.matches("default").count() + body.matches("inner").count());
             must = d(&["EnumString"]);
         }
         "unsupported-prop-literal" => {
